@@ -319,8 +319,25 @@ def _shard_entry(args):
         return ("infra", tb)
 
 
+def _raised_in_repo(e):
+    tb = e.__traceback__
+    last = None
+    while tb is not None:
+        last = tb.tb_frame.f_code.co_filename
+        tb = tb.tb_next
+    try:
+        return bool(last) and os.path.realpath(last).startswith(os.path.realpath(REPO) + os.sep)
+    except OSError:
+        return False
+
+
 def _data_dependent(e):
     """Exceptions that stem from the data the implementation handed back, as opposed to the machine the check runs on."""
+    if isinstance(e, (FileNotFoundError, FileExistsError, IsADirectoryError, NotADirectoryError)) and _raised_in_repo(e):
+        # a file in-toto itself expected (or did not expect) to be there, raised from in-toto's own code in the middle of a
+        # scripted history that runs through on the pinned tree: the history went another way - not the machine's doing
+        # (full disks, descriptor limits and the like are other OSError classes and stay infrastructure failures)
+        return True
     if isinstance(e, (OSError, MemoryError, subprocess.TimeoutExpired, EOFError, ImportError, RecursionError)):
         return False
     mod = type(e).__module__ or ""
